@@ -204,6 +204,8 @@ def _bfs(pool, check, ci, cfg, bounds, res, t_start, budget_s, workers, log):
 def _record(res, check, cfg, history, viols):
     for v in viols:
         v.setdefault("property", check.prop)
+        v.setdefault("tier", check.tier)
+        v.setdefault("seed", check.seed)
         v["config"] = cfg["name"]
         v["cfg"] = {k: cfg[k] for k in cfg if k not in ("name",)}
         v["history"] = list(history)
